@@ -5,6 +5,7 @@ import (
 	"bytes"
 	"fmt"
 	"io"
+	"testing/iotest"
 	"time"
 
 	"github.com/nlnwa/gowarc/v2/internal/diskbuffer"
@@ -73,7 +74,16 @@ func VerifNewBlock(kind string, content []byte, cached bool, alg string, enc int
 		}
 		r = b
 	} else {
-		r = struct{ io.Reader }{bytes.NewReader(content)}
+		// a one-shot source, delivering its bytes the three ways an io.Reader may: plainly, the last
+		// bytes together with io.EOF, or one byte at a time
+		switch len(content) % 4 {
+		case 0:
+			r = struct{ io.Reader }{bytes.NewReader(content)}
+		case 1, 2:
+			r = iotest.DataErrReader(bytes.NewReader(content))
+		default:
+			r = iotest.OneByteReader(bytes.NewReader(content))
+		}
 	}
 	bd, err := newDigest(alg, digestEncoding(enc))
 	if err != nil {
